@@ -262,7 +262,7 @@ fn detect_cases(max_f: i32) -> Vec<StCase> {
 
 pub fn run(ctx: &Ctx) -> PropReport {
     let mut rep = PropReport::new("C13", "exploration");
-    let seeds = ctx.tier.pick(1u64, 4u64);
+    let seeds = ctx.tier.pick(3u64, 10u64);
     let seed = ctx.seed;
     rep.part(|| run_enum(
         ctx,
@@ -273,7 +273,7 @@ pub fn run(ctx: &Ctx) -> PropReport {
         eval,
         true,
     ));
-    let cases = detect_cases(ctx.tier.pick(24, 70));
+    let cases = detect_cases(ctx.tier.pick(40, 100));
     let n = cases.len() as u64;
     rep.part(|| run_enum(
         ctx,
